@@ -1,0 +1,10 @@
+//go:build !verif
+
+package regexp2
+
+// verifRunnerState is empty unless the package is built with the verif tag.
+type verifRunnerState struct{}
+
+func verifScanStart(*Runner) {}
+
+func verifStep(*Runner) {}
